@@ -16,7 +16,7 @@
 use serde_json::{Value, json};
 use std::collections::{BTreeMap, BTreeSet};
 use surf_n_term::{
-    Color, Image, ImageHandler, Position, RGBA, Shape, SixelImageHandler, Size, Surface,
+    Color, Image, ImageHandler, Position, RGBA, Shape, SixelImageHandler, Size, Surface, SurfaceOwned,
 };
 use verif_harness::{Cfg, r#gen::Rng, guarded, out::Out, out::hex};
 
@@ -260,6 +260,11 @@ struct Case {
     bg: Option<[u8; 4]>,
     /// cropped view: rows r0..r1, cols c0..c1 of the backing image
     crop: Option<(usize, usize, usize, usize)>,
+    /// how the `Image` is laid out in memory (the pixels the handler must show are the same):
+    /// 0 dense `from_parts` (+ `crop`), 1 `Image::new(SurfaceOwned)`, 2 `Image::new` of a transposed
+    /// column-major surface (row stride 1), 3 `from_parts` with a hand-written `Shape`: offset, padded rows,
+    /// 4 the same with every second element (column stride 2)
+    layout: u8,
     tag: String,
 }
 
@@ -270,6 +275,7 @@ impl Case {
             "px": hex(&self.px.iter().flatten().copied().collect::<Vec<u8>>()),
             "bg": self.bg.map(|b| b.to_vec()),
             "crop": self.crop.map(|(a, b, c, d)| vec![a, b, c, d]),
+            "layout": self.layout,
         })
     }
     fn from_json(v: &Value) -> Option<Case> {
@@ -288,11 +294,36 @@ impl Case {
         let arr = |v: &Value| -> Option<Vec<u64>> { v.as_array().map(|a| a.iter().filter_map(|x| x.as_u64()).collect()) };
         let bg = arr(&v["bg"]).filter(|a| a.len() == 4).map(|a| [a[0] as u8, a[1] as u8, a[2] as u8, a[3] as u8]);
         let crop = arr(&v["crop"]).filter(|a| a.len() == 4).map(|a| (a[0] as usize, a[1] as usize, a[2] as usize, a[3] as usize));
-        Some(Case { w, h, px, bg, crop, tag: v["tag"].as_str().unwrap_or("replay").to_string() })
+        Some(Case { w, h, px, bg, crop, layout: v["layout"].as_u64().unwrap_or(0) as u8, tag: v["tag"].as_str().unwrap_or("replay").to_string() })
     }
     fn image(&self) -> Image {
-        let data: Vec<RGBA> = self.px.iter().map(|p| RGBA::new(p[0], p[1], p[2], p[3])).collect();
-        let img = Image::from_parts(data.into(), Shape::from(Size::new(self.h, self.w)));
+        let (w, h) = (self.w, self.h);
+        let rgba = |p: &[u8; 4]| RGBA::new(p[0], p[1], p[2], p[3]);
+        let junk = RGBA::new(251, 3, 77, 201);
+        let img = match self.layout {
+            1 => Image::new(SurfaceOwned::new_with(Size::new(h, w), |pos| rgba(&self.px[pos.row * w + pos.col]))),
+            2 => {
+                // backing store column by column: a surface of `w` rows and `h` columns, seen transposed
+                let store = SurfaceOwned::new_with(Size::new(w, h), |pos| rgba(&self.px[pos.col * w + pos.row]));
+                Image::new(store.transpose())
+            }
+            3 | 4 => {
+                let cs = if self.layout == 4 { 2 } else { 1 };
+                let (start, rs) = (5usize, w * cs + 3);
+                let mut data = vec![junk; start + h * rs + 7];
+                for r in 0..h {
+                    for c in 0..w {
+                        data[start + r * rs + c * cs] = rgba(&self.px[r * w + c]);
+                    }
+                }
+                let end = if h == 0 { start } else { start + (h - 1) * rs + w * cs };
+                Image::from_parts(data.into(), Shape { start, end, width: w, height: h, row_stride: rs, col_stride: cs })
+            }
+            _ => {
+                let data: Vec<RGBA> = self.px.iter().map(rgba).collect();
+                Image::from_parts(data.into(), Shape::from(Size::new(h, w)))
+            }
+        };
         match self.crop {
             Some((r0, r1, c0, c1)) => img.crop(r0..r1, c0..c1),
             None => img,
@@ -389,7 +420,7 @@ const BACKGROUNDS: [Option<[u8; 4]>; 5] =
 fn corner_cases() -> Vec<Case> {
     let mut v = Vec::new();
     let solid = |w: usize, h: usize, c: [u8; 4]| vec![c; w * h];
-    let mk = |tag: &str, w: usize, h: usize, px: Vec<[u8; 4]>, bg, crop| Case { w, h, px, bg, crop, tag: tag.to_string() };
+    let mk = |tag: &str, w: usize, h: usize, px: Vec<[u8; 4]>, bg, crop| Case { w, h, px, bg, crop, layout: 0, tag: tag.to_string() };
     // heights around the multiples of six
     for h in [6usize, 7, 11, 12, 13, 17, 18] {
         let mut px = Vec::new();
@@ -520,6 +551,29 @@ fn corner_cases() -> Vec<Case> {
             v.push(mk(&format!("stream-{w}x{h}"), w, h, stream.clone(), None, None));
         }
     }
+    // the same picture under every memory layout (dense, Image::new of an owned surface, transposed
+    // column-major store, padded rows with an offset, column stride 2), heights 13 and 6
+    for layout in 0..5u8 {
+        for (w, h) in [(7usize, 13usize), (1, 6), (40, 7)] {
+            let mut px = Vec::new();
+            for y in 0..h {
+                for x in 0..w {
+                    px.push([(x * 6 % 256) as u8, (y * 19 % 256) as u8, ((x / 2 + y / 3) * 40 % 256) as u8, if (x + y) % 5 == 0 { 120 } else { 255 }]);
+                }
+            }
+            let mut c = mk(&format!("layout{layout}"), w, h, px, Some([40, 90, 200, 255]), None);
+            c.layout = layout;
+            v.push(c);
+        }
+    }
+    // layouts combined with a crop
+    for layout in 1..5u8 {
+        let (w, h) = (11usize, 19usize);
+        let px: Vec<[u8; 4]> = (0..w * h).map(|i| [(i * 7 % 256) as u8, (i * 3 % 256) as u8, (i % 4 * 60) as u8, 255]).collect();
+        let mut c = mk(&format!("layout{layout}-crop"), w, h, px, None, Some((2, 17, 3, 10)));
+        c.layout = layout;
+        v.push(c);
+    }
     v
 }
 
@@ -555,7 +609,7 @@ fn sampling_case(rng: &mut Rng, w: usize, h: usize, singles: usize, tag: &str) -
         }
         px[pos] = from_levels([i % 101, (i * 37) % 101, 30 + i / 101]);
     }
-    Case { w, h, px, bg: None, crop: None, tag: tag.to_string() }
+    Case { w, h, px, bg: None, crop: None, layout: 0, tag: tag.to_string() }
 }
 
 /// A low, very wide picture (`h` rows): background colour with sparse structure, a run of a second
@@ -593,7 +647,7 @@ fn wide_case(rng: &mut Rng, w: usize, h: usize, tag: &str) -> Case {
         }
         px[y * w + w - 1] = last;
     }
-    Case { w, h, px, bg: None, crop: None, tag: tag.to_string() }
+    Case { w, h, px, bg: None, crop: None, layout: 0, tag: tag.to_string() }
 }
 
 fn random_case(rng: &mut Rng, thorough: bool) -> Case {
@@ -633,7 +687,8 @@ fn random_case(rng: &mut Rng, thorough: bool) -> Case {
     } else {
         None
     };
-    Case { w, h, px, bg, crop, tag: format!("random{ncol}") }
+    let layout = if rng.chance(2, 3) { 0 } else { 1 + rng.below(4) as u8 };
+    Case { w, h, px, bg, crop, layout, tag: format!("random{ncol}") }
 }
 
 // ---------------------------------------------------------------------------------------------
@@ -660,18 +715,57 @@ fn pre_reduce(c: [u8; 4]) -> [u8; 4] {
     [red, green, blue, alpha]
 }
 
-/// `(palette, qimg)` as `draw` obtains them, through the public API: rows `..height` of the view, every
-/// pixel composited over the background (when not opaque) and channel-reduced, then `quantize(256, true, bg)`.
-fn quantised(img: &Image, bg: Option<RGBA>) -> Option<(Vec<[u8; 3]>, Vec<usize>)> {
-    let height = (img.height() / 6) * 6;
-    let back = bg.unwrap_or(RGBA::new(0, 0, 0, 255));
-    let dimg = Image::from(img.view(..height, ..).map(|_, color| {
-        let color = if color.to_rgba()[3] < 255 { back.blend_over(*color) } else { *color };
-        let [r, g, b, a] = pre_reduce(color.to_rgba());
-        RGBA::new(r, g, b, a)
-    }));
-    let (palette, qimg) = dimg.quantize(256, true, bg)?;
-    Some((palette.colors().iter().map(|c| c.to_rgb()).collect(), qimg.iter().copied().collect()))
+/// `(palette, qimg)` as `draw` obtains them — built from the RAW generated pixels, not through the view /
+/// `map` / `get` of the image under test: the first `th` rows of the visible pixels, composited over the
+/// background when not opaque, channel-reduced, as a dense image; then the crate's `quantize(256, true, bg)`
+/// (property C13's subject) and the raw index buffer of its answer.
+fn quantised(vis: &[[u8; 4]], vw: usize, th: usize, bg: Option<[u8; 4]>) -> Option<(Vec<[u8; 3]>, Vec<usize>)> {
+    let data: Vec<RGBA> = vis[..vw * th]
+        .iter()
+        .map(|p| {
+            let c = composite(*p, bg);
+            let [r, g, b, _] = pre_reduce([c[0], c[1], c[2], 255]);
+            RGBA::new(r, g, b, 255)
+        })
+        .collect();
+    let dimg = Image::from_parts(data.into(), Shape::from(Size::new(th, vw)));
+    let (palette, qimg) = dimg.quantize(256, true, bg.map(|b| RGBA::new(b[0], b[1], b[2], b[3])))?;
+    Some((palette.colors().iter().map(|c| c.to_rgb()).collect(), qimg.data().to_vec()))
+}
+
+/// sRGB compositing written out independently (f64, IEC 61966-2-1 transfer functions, source over an
+/// opaque background in linear light): cross-check of the `rasterize` helper the expectations rely on
+fn composite_reference(p: [u8; 4], bg: [u8; 4]) -> [f64; 3] {
+    let s2l = |v: u8| {
+        let x = v as f64 / 255.0;
+        if x <= 0.04045 { x / 12.92 } else { ((x + 0.055) / 1.055).powf(2.4) }
+    };
+    let l2s = |x: f64| if x <= 0.0031308 { x * 12.92 } else { 1.055 * x.powf(1.0 / 2.4) - 0.055 };
+    let a = p[3] as f64 / 255.0;
+    let mut out = [0.0; 3];
+    for i in 0..3 {
+        out[i] = l2s(s2l(p[i]) * a + s2l(bg[i]) * (1.0 - a)) * 255.0;
+    }
+    out
+}
+
+/// largest difference between `composite` (rasterize) and the independent formula over a grid
+fn composite_cross_check() -> f64 {
+    let mut worst: f64 = 0.0;
+    for b in [0u8, 30, 128, 200, 255] {
+        for a in (0..=255u16).step_by(5) {
+            for c in (0..=255u16).step_by(3) {
+                let p = [c as u8, (255 - c) as u8, (c / 2) as u8, a as u8];
+                let bg = [b, 255 - b, b / 3, 255];
+                let got = composite(p, Some(bg));
+                let want = composite_reference(p, bg);
+                for i in 0..3 {
+                    worst = worst.max((got[i] as f64 - want[i]).abs());
+                }
+            }
+        }
+    }
+    worst
 }
 
 /// handlers that live through the whole run, one per background: every case is also drawn on them, so
@@ -837,7 +931,7 @@ fn run_case(out: &mut Out, shared: &mut Shared, case: &Case, full_lines: bool) {
     // -- correspondence: model of the encoder on (palette, qimg) ---------------------------------
     let canon = canonical(&bytes, &d);
     // (the list-based Lean models index columns in linear time: no model lines for very wide pictures)
-    let pair = if vw > 8192 { Some((Vec::new(), Vec::new())) } else { quantised(&img, bg) };
+    let pair = if vw > 8192 { Some((Vec::new(), Vec::new())) } else { quantised(&vis, vw, th, case.bg) };
     if vw > 8192 {
     } else if let Some((pal, q)) = pair {
         let palhex = hex(&pal.iter().flatten().copied().collect::<Vec<u8>>());
@@ -1005,7 +1099,7 @@ fn alpha_grid(out: &mut Out, alphas: &[u8], bgs: &[u8]) -> (u64, u64) {
         let bg = [b, b, b, 255];
         for &a in alphas {
             let px: Vec<[u8; 4]> = (0..6).flat_map(|_| (0..=255u8).map(move |c| [c, c, c, a])).collect();
-            let case = Case { w: 256, h: 6, px, bg: Some(bg), crop: None, tag: "alpha-grid".into() };
+            let case = Case { w: 256, h: 6, px, bg: Some(bg), crop: None, layout: 0, tag: "alpha-grid".into() };
             let decoded = draw(&mut SixelImageHandler::new(Some(RGBA::new(b, b, b, 255))), &case.image()).and_then(|bytes| decode(&bytes));
             for c in 0..256usize {
                 let want = composite([c as u8, c as u8, c as u8, a], Some(bg)).map(level);
@@ -1014,7 +1108,7 @@ fn alpha_grid(out: &mut Out, alphas: &[u8], bgs: &[u8]) -> (u64, u64) {
                 if got != Some(want) {
                     bad += 1;
                     if bad <= 3 {
-                        let witness = Case { w: 1, h: 6, px: vec![[c as u8, c as u8, c as u8, a]; 6], bg: Some(bg), crop: None, tag: "alpha-grid-witness".into() };
+                        let witness = Case { w: 1, h: 6, px: vec![[c as u8, c as u8, c as u8, a]; 6], bg: Some(bg), crop: None, layout: 0, tag: "alpha-grid-witness".into() };
                         out.fail(
                             "non-opaque source pixel: decoded level differs from the composited source at 0-100 resolution",
                             witness.to_json(),
@@ -1053,6 +1147,66 @@ fn run_degenerate(out: &mut Out, w: usize, h: usize) {
     }
     out.case(&format!("degenerate {w} {h}"), false);
     out.hist("degenerate");
+}
+
+// ---------------------------------------------------------------------------------------------
+// two handlers on one thread, used alternately, through `dyn ImageHandler`
+// ---------------------------------------------------------------------------------------------
+
+/// Two handlers with different backgrounds draw the same translucent images alternately (as boxed trait
+/// objects): each must show the image over ITS background (nothing may leak from one handler or one
+/// draw to the next through shared or thread-local state), and every redraw on a handler is byte-identical.
+fn run_two_handlers(out: &mut Out, seed: u64, rounds: usize) {
+    let mut rng = Rng::new(seed);
+    let bgs = [[250u8, 250, 250, 255], [5, 5, 40, 255]];
+    let mut handlers: Vec<Box<dyn ImageHandler>> = bgs.iter().map(|b| Box::new(SixelImageHandler::new(Some(RGBA::new(b[0], b[1], b[2], b[3])))) as Box<dyn ImageHandler>).collect();
+    let mut firsts: Vec<Vec<Vec<u8>>> = vec![Vec::new(), Vec::new()];
+    let mut cases: Vec<Case> = Vec::new();
+    for i in 0..rounds {
+        let (w, h) = (1 + rng.below(20) as usize, 6 + rng.below(14) as usize);
+        let ncol = 2 + rng.below(5) as usize;
+        let px = gen_image(&mut rng, w, h, ncol, true);
+        let case = Case { w, h, px, bg: None, crop: None, layout: (i % 5) as u8, tag: "two-handlers".into() };
+        let img = case.image();
+        let th = h / 6 * 6;
+        let input = json!({"two_handlers_seed": seed, "rounds": i + 1, "history": format!("two boxed sixel handlers with backgrounds {bgs:?} on one thread draw the images of gen_image(Rng(seed)) alternately; image {i} is {w}x{h}, layout {}", i % 5)});
+        for k in [0usize, 1, 0, 1] {
+            let mut sink = Vec::new();
+            let res = guarded(|| handlers[k].draw(&mut sink, &img, Position::new(0, 0)));
+            if !matches!(res, Ok(Ok(()))) {
+                out.fail("draw failed", input, json!("Ok"), json!("error or panic"));
+                return;
+            }
+            if firsts[k].len() == i {
+                let want: Vec<Option<[u8; 3]>> = case.px[..w * th].iter().map(|p| Some(composite(*p, Some(bgs[k])).map(level))).collect();
+                match decode(&sink) {
+                    Ok(d) if d.pix == want && (d.width, d.height) == (w, th) => {}
+                    _ => {
+                        out.fail("with two handlers used alternately an image is not shown over its own handler's background", input, json!({"handler": k, "background": bgs[k]}), json!(hex(&sink[..sink.len().min(300)])));
+                        return;
+                    }
+                }
+                firsts[k].push(sink);
+            } else if firsts[k][i] != sink {
+                out.fail("with two handlers used alternately a redraw emits different bytes", input, json!({"handler": k}), json!("other bytes"));
+                return;
+            }
+        }
+        cases.push(case);
+        // an earlier image again on both
+        let j = rng.below(cases.len() as u64) as usize;
+        let old = cases[j].image();
+        for k in [1usize, 0] {
+            let mut sink = Vec::new();
+            let _ = guarded(|| handlers[k].draw(&mut sink, &old, Position::new(0, 0)));
+            if sink != firsts[k][j] {
+                out.fail("with two handlers used alternately a redraw emits different bytes", input, json!({"handler": k, "image": j}), json!("other bytes"));
+                return;
+            }
+        }
+    }
+    out.case(&format!("two-handlers {seed} {rounds}"), true);
+    out.hist("two-handlers");
 }
 
 // ---------------------------------------------------------------------------------------------
@@ -1208,6 +1362,14 @@ fn run_eviction_session(out: &mut Out, seed: u64, budget: usize, ops: usize) {
             Image::from_parts(data.into(), Shape::from(Size::new(h, w)))
         })
         .collect();
+    // `Surface::hash` is used below only to recognise the entries the hook shows: it has to tell the pool
+    // images apart (a cross-check of the helper; the draws themselves are judged on pictures and bytes)
+    {
+        let keys: BTreeSet<u64> = pool.iter().map(|i| Surface::hash(i)).collect();
+        if keys.len() != pool.len() {
+            out.corr("c12 surface-hash-tells-the-pool-images-apart", &format!("no: {} keys for {} different images", keys.len(), pool.len()));
+        }
+    }
     // budget 0 stands for "exactly the encoded length of the first pool image" (size == budget: the
     // loop condition is `>`, the entry must stay)
     let budget = if budget == 0 { draw(&mut SixelImageHandler::new(None), &pool[0]).map(|b| b.len()).unwrap_or(1) } else { budget };
@@ -1295,6 +1457,10 @@ fn run_eviction_session(out: &mut Out, seed: u64, budget: usize, ops: usize) {
 }
 
 fn main() {
+    if std::env::var("C12_PROBE").is_ok() {
+        println!("composite cross-check: worst difference {}", composite_cross_check());
+        return;
+    }
     let cfg = Cfg::from_env();
     let corners = corner_cases();
     if std::env::var("C12_LOUD").is_err() { verif_harness::silence_panics(); }
@@ -1313,6 +1479,11 @@ fn main() {
         }
         if let (Some(seed), Some(pattern)) = (inp["sink_image_seed"].as_u64(), inp["pattern"].as_str()) {
             run_sink_case(&mut out, seed, inp["w"].as_u64().unwrap_or(1) as usize, inp["h"].as_u64().unwrap_or(6) as usize, inp["colours"].as_u64().unwrap_or(2) as usize, pattern);
+            out.finish(rule);
+            return;
+        }
+        if let (Some(seed), Some(rounds)) = (inp["two_handlers_seed"].as_u64(), inp["rounds"].as_u64()) {
+            run_two_handlers(&mut out, seed, rounds as usize);
             out.finish(rule);
             return;
         }
@@ -1381,7 +1552,7 @@ fn main() {
         for y in 0..6 {
             big[(y + 1) * bw + 4..(y + 1) * bw + 4 + 65560].copy_from_slice(&inner.px[y * 65560..(y + 1) * 65560]);
         }
-        run_case(&mut out, &mut shared, &Case { w: bw, h: bh, px: big, bg: None, crop: Some((1, 7, 4, 65564)), tag: "wide-crop".into() }, false);
+        run_case(&mut out, &mut shared, &Case { w: bw, h: bh, px: big, bg: None, crop: Some((1, 7, 4, 65564)), layout: 0, tag: "wide-crop".into() }, false);
     }
     // the sampling rule of the palette extraction (256 registers: below 51 200 kept pixels every pixel
     // is walked): pictures just below / above 25 600 and 51 200 pixels and in between, with 230 colours
@@ -1413,7 +1584,7 @@ fn main() {
                     big[(y + 1) * bw + x + 2] = case.px[y * w + x];
                 }
             }
-            case = Case { w: bw, h: bh, px: big, bg: None, crop: Some((1, 1 + h, 2, 2 + w)), tag: case.tag.clone() };
+            case = Case { w: bw, h: bh, px: big, bg: None, crop: Some((1, 1 + h, 2, 2 + w)), layout: 0, tag: case.tag.clone() };
         }
         run_case(&mut out, &mut shared, &case, false);
     }
@@ -1422,12 +1593,21 @@ fn main() {
         let (w, h) = (240usize, 216usize);
         let mut r = rng.fork();
         let px = gen_image(&mut r, w, h, 700, false);
-        run_case(&mut out, &mut shared, &Case { w, h, px, bg: None, crop: None, tag: "subsampled".into() }, false);
+        run_case(&mut out, &mut shared, &Case { w, h, px, bg: None, crop: None, layout: 0, tag: "subsampled".into() }, false);
     }
     // images answered with nothing
     for (w, h) in [(0usize, 6usize), (0, 12), (0, 0), (5, 0), (5, 1), (5, 5), (1, 3), (300, 5)] {
         run_degenerate(&mut out, w, h);
     }
+    // the helper the expectations rely on for compositing, against the formula written out in the harness
+    {
+        let worst = composite_cross_check();
+        out.extra("composite_cross_check_worst_difference", json!(worst));
+        if worst > 0.6 {
+            out.corr("c12 rasterize-blend-over-agrees-with-srgb-compositing", &format!("no: differs by {worst} (8-bit units)"));
+        }
+    }
+    run_two_handlers(&mut out, rng.next(), if cfg.thorough { 300 } else { 25 });
     // sinks that take the bytes in pieces, are interrupted, or fail: first draw and cache hit
     {
         let small = ["a1", "a2", "a3", "a7", "a1.i.a5", "i.i.a3", "a5.a1.a4096", "a10.f", "a0", "a7.a7.f", "f", "i.a1.i.a2.i.a3"];
